@@ -130,7 +130,7 @@ RS="oidc.redisStore."
 METHS=["SetTokenResponse","GetTokenResponse","SetAuthorizationState","GetAuthorizationState","ClearAuthorizationState","RemoveSession"]
 P['C12']={
  "refines":[MS+m for m in METHS]+[RS+m for m in METHS],
- "functions":["oidc.NewRedisStore"]+[RS+m for m in METHS],
+ "functions":["oidc.NewRedisStore","oidc.Clock.Now"]+[RS+m for m in METHS],
  "sweep":["oidc.init"],
  "lemmas":["L-onlysid-ext"],
  "required":[RS+"GetTokenResponse:refine:SessionStore.GetTokenResponse.got", RS+"GetAuthorizationState:refine:SessionStore.GetAuthorizationState.got", RS+"SetTokenResponse:refine:SessionStore.SetTokenResponse.ok", RS+"SetAuthorizationState:refine:SessionStore.SetAuthorizationState.ok", RS+"RemoveSession:refine:SessionStore.RemoveSession.ok", RS+"ClearAuthorizationState:refine:SessionStore.ClearAuthorizationState.ok", RS+"SetTokenResponse:refine:repinv.dbwf", RS+"SetTokenResponse:refine:SessionStore.SetTokenResponse.frame_pw", "oidc.init:post:pkginv.rediskeys", "oidc.NewRedisStore:post:fields", RS+"SetTokenResponse:post:faults_reported", RS+"GetTokenResponse:post:faults_reported", RS+"SetTokenResponse:post:only_this_key", RS+"RemoveSession:post:only_this_key",
@@ -138,6 +138,7 @@ P['C12']={
  "note":"both stores: every method refines the abstract-map contract of SessionStore under the abstraction MemView, keeps the representation invariants, and acquires / releases the store mutex exactly once around its accesses"}
 P['C10']={
  "posts":{H+"Process":["ok_not_timed_out","ok_justified"]},
+ "functions":["oidc.Clock.Now"],
  "refines":[MS+m for m in METHS]+[RS+m for m in METHS],
  "lemmas":["L-onlysid-ext","L-timedout-monotone"],
  "required":[RS+"GetTokenResponse:refine:SessionStore.GetTokenResponse.timeout", RS+"GetAuthorizationState:refine:SessionStore.GetAuthorizationState.timeout", RS+"GetTokenResponse:refine:SessionStore.GetTokenResponse.kept_inside", RS+"GetTokenResponse:refine:SessionStore.GetTokenResponse.refreshed", RS+"SetTokenResponse:refine:repinv.dbwf", RS+"SetAuthorizationState:refine:repinv.dbwf", MS+"GetTokenResponse:refine:SessionStore.GetTokenResponse.refreshed", MS+"SetTokenResponse:refine:SessionStore.SetTokenResponse.refreshed",
